@@ -1447,3 +1447,17 @@ def _containment_edges(repo, ob, failure):
 GENERATORS.insert(0, ("C12.attrs.removed", _containment_edges))
 GENERATORS.insert(0, ("C12.inside.empty", _containment_edges))
 GENERATORS.insert(0, ("C12.surround.nothing", _containment_edges))
+
+
+def _config_keeps_random_sequence(repo, ob, failure):
+    """a <config> element without a seed does not restart the random sequence"""
+    import re as _re
+    doc = '<svg><text xy="0 0" text="{{random()}} {{random()}}"/><config border="2"/><text xy="0 5" text="{{random()}} {{random()}}"/></svg>'
+    r = run_svgdx(repo, doc, args=("--no-auto-styles",))
+    t = _re.findall(r">([^<]*)</text>", r["out"])
+    if r["rc"] == 0 and len(t) == 2 and t[0] == t[1]:
+        return {"input": doc, "args": ["--no-auto-styles"], "observed": "both texts read %r: the second pair of random() calls repeats the first draws" % t[0], "expected": "four successive draws of one sequence"}
+    return None
+
+
+GENERATORS.insert(0, ("C14.config.", _config_keeps_random_sequence))
